@@ -72,7 +72,11 @@ type ResourcePool struct {
 	lock         *sync.Mutex
 	scaleOutTime int64
 	scaleInTodo  chan int8
-	Dynamic      bool
+	// resizing is held (one token) by ScaleCapacity from the moment it changes capacity until
+	// it has collected or added all slots, and by a scale-out while it adds its slot: while a
+	// reduction or Close is still waiting for connections nothing may add slots.
+	resizing chan struct{}
+	Dynamic  bool
 }
 
 type resourceWrapper struct {
@@ -106,6 +110,7 @@ func NewResourcePool(factory Factory, capacity, maxCap int, idleTimeout time.Dur
 		maxCapacity:  sync2.NewAtomicInt64(int64(maxCap)),
 		lock:         &sync.Mutex{},
 		scaleInTodo:  make(chan int8, 1),
+		resizing:     make(chan struct{}, 1),
 		Dynamic:      true, // 动态扩展连接池
 	}
 
@@ -339,6 +344,10 @@ func (rp *ResourcePool) ScaleCapacity(capacity int) error {
 		return fmt.Errorf("capacity %d is out of range", capacity)
 	}
 
+	// one capacity change at a time; scale-out is refused while it is in progress
+	rp.resizing <- struct{}{}
+	defer func() { <-rp.resizing }()
+
 	// Atomically swap new capacity with old, but only
 	// if old capacity is non-zero.
 	var oldcap int
@@ -380,6 +389,14 @@ func (rp *ResourcePool) ScaleCapacity(capacity int) error {
 func (rp *ResourcePool) scaleOutResources() (resourceWrapper, bool) {
 	rp.lock.Lock()
 	defer rp.lock.Unlock()
+	// scale-outs are serialised by rp.lock, so the token can only be missing because a
+	// capacity change or Close is collecting slots: wait for a slot instead of adding one
+	select {
+	case rp.resizing <- struct{}{}:
+		defer func() { <-rp.resizing }()
+	default:
+		return resourceWrapper{}, false
+	}
 	if rp.capacity.Get() < rp.maxCapacity.Get() {
 		wrapper, ok := rp.AddCapacityResource()
 		rp.scaleOutTime = time.Now().Unix()
@@ -391,7 +408,8 @@ func (rp *ResourcePool) scaleOutResources() (resourceWrapper, bool) {
 // 扩容并获取连接, 外层加锁了，所以这边不加锁
 func (rp *ResourcePool) AddCapacityResource() (resourceWrapper, bool) {
 	capacity := int(rp.capacity.Get())
-	if capacity < 0 || capacity >= int(rp.maxCapacity.Get()) {
+	if capacity <= 0 || capacity >= int(rp.maxCapacity.Get()) {
+		// capacity 0: the pool is closed or closing
 		return resourceWrapper{}, false
 	}
 	rp.capacity.Add(1)
